@@ -245,11 +245,129 @@ def cli_part(chk):
         shutil.rmtree(d, ignore_errors=True)
 
 
+def gen_template(rng):
+    """text as it may reach the UI: braces single, doubled, around names, nested, dangling; mostly short"""
+    parts = []
+    for _ in range(rng.randint(0, 7)):
+        parts.append(rng.choice(["{", "}", "{{", "}}", "{ind}", "{x}", "{0}", "{}", "{ind", "ind}", "a", "b c", "é", "%s", "%(x)s", ":", "\n",
+                                 "{ind!r}", "{ind:>6}", "{a.b}", "{a[0]}", "{ in d }", "{{ind}}", "{{{ind}}}", "}{", "{{}", "run {cmd} failed"]))
+    return "".join(parts)
+
+
+def format_part(chk):
+    """Model.Format vs CPython's str.format as the UI calls it, and escape_braces; the run details header of the real UI"""
+    import rebench.ui as rui
+    from humanfriendly.text import format as hf_format
+    rng = chk.rng
+    n = 1500 if chk.tier == "quick" else 20000
+    exprs, obs = [], []
+    for i in range(n):
+        t = gen_template(rng)
+        try:
+            r = [0, [ord(c) for c in hf_format(t, ind=rui._DETAIL_INDENT)]]
+        except (KeyError, IndexError, ValueError, AttributeError, TypeError):
+            r = [1]
+        esc = rui.escape_braces(t)
+        case = dict(text=t)
+        # the property itself, model-free: escaped text is printed verbatim, never an exception
+        try:
+            back = hf_format("x: " + esc + "{ind}|", ind=rui._DETAIL_INDENT)
+            if back != "x: " + t + rui._DETAIL_INDENT + "|":
+                chk.violation("C10 text made literal with escape_braces is printed unchanged", case, t, back)
+        except Exception as exc:  # noqa
+            chk.violation("C10 no exception from printing any text that went through escape_braces", case, "no exception", repr(exc))
+        exprs.append("L [sx_fres (py_format detail_indent %s); sx_str (escape_braces %s)]" % (core.coq_str(t), core.coq_str(t)))
+        obs.append((case, r, [ord(c) for c in esc]))
+        chk.case(("fmt", t), nontrivial="{" in t or "}" in t)
+    # the run details header of the real UI with braces everywhere
+    ui = rui.UI()
+    for i in range(60 if chk.tier == "quick" else 600):
+        cmd, cwd = gen_template(rng) or "c", gen_template(rng) or "/d"
+        env = {gen_template(rng) or "K": gen_template(rng) for _ in range(rng.randint(0, 2))}
+        ui._prev_cmd = None
+        text = ui._prepare_details(None, cmd, cwd, env)
+        case = dict(cmd=cmd, cwd=cwd, env=env)
+        try:
+            out = hf_format(text, ind=rui._DETAIL_INDENT)
+        except Exception as exc:  # noqa
+            chk.violation("C10 no exception from printing the run details, whatever the command, directory and environment contain", case,
+                          "no exception", repr(exc))
+            continue
+        for piece in [cmd, cwd] + [k for k in env] + [v for v in env.values()]:
+            if piece not in out:
+                chk.violation("C10 the run details show command, directory and environment verbatim", case, piece, out)
+                break
+        chk.case(("details", cmd, cwd, json.dumps(env)))
+    chk.count("format_templates", n)
+    return exprs, obs
+
+
+def exit_part(chk):
+    """Gen.GenMain.exit_status vs main_func for every way ReBench().run() can end"""
+    import rebench.rebench as rb
+    from rebench.output import UIError
+    from rebench.executor import BenchmarkThreadExceptions
+    ends = [("RTrue", lambda: True), ("RFalse", lambda: False), ("RKeyboardInterrupt", KeyboardInterrupt()),
+            ("RUIError", UIError("some {braces} message\n".replace("{", "{{").replace("}", "}}"), None)),
+            ("RThreadExceptions", BenchmarkThreadExceptions([RuntimeError("x"), RuntimeError("y")])),
+            ("ROtherException", RuntimeError("boom"))]
+    o_run = rb.ReBench.run
+    exprs, obs = [], []
+    import io
+    import contextlib
+    try:
+        for name, end in ends:
+            def fake(self, argv=None, end=end):
+                if isinstance(end, BaseException):
+                    raise end
+                return end()
+            rb.ReBench.run = fake
+            buf = io.StringIO()
+            with contextlib.redirect_stdout(buf), contextlib.redirect_stderr(buf):
+                try:
+                    rc = rb.main_func()
+                except BaseException as exc:  # noqa
+                    rc = None
+            exprs.append("match exit_status %s with Some z => L [sx_Z z] | None => L [] end" % name)
+            obs.append((dict(run_ends_with=name), [rc] if rc is not None else []))
+            chk.case(("exit", name))
+    finally:
+        rb.ReBench.run = o_run
+    want = {"RTrue": 0, "RFalse": 1, "RKeyboardInterrupt": 2, "RUIError": 3}
+    for (case, o) in obs:
+        w = want.get(case["run_ends_with"])
+        if w is not None and o != [w]:
+            chk.violation("C10 exit status: 0 success, 1 failed benchmarks, 2 user abort, 3 usage / configuration error", case, w, o)
+    return exprs, obs
+
+
 def run(chk):
-    chk.prove(models=["Model/Machine"])
+    chk.prove(models=["Model/Machine", "Model/Format", "Gen/GenUi", "Gen/GenMain"])
     exprs = []
     in_process_part(chk, exprs)
     cli_part(chk)
+    fexprs, fobs = format_part(chk)
+    xexprs, xobs = exit_part(chk)
+    try:
+        fres = core.coq_eval(["Lib.Str", "Model.Format", "Gen.GenUi", "Gen.GenMain"], fexprs + xexprs, chk.scratch, chunk=300, jobs=8)
+        nf = 0
+        for (case, r, esc), m in zip(fobs, fres[:len(fexprs)]):
+            mr, mesc = m
+            same_esc = mesc == esc
+            same_fmt = (mr[0] == 2) or (mr[0] == r[0] and (r[0] == 1 or mr[1] == r[1]))
+            if not (same_esc and same_fmt):
+                nf += 1
+                if nf <= 3:
+                    chk.obligation_broken("correspondence", "Model.Format / Gen.GenUi.escape_braces vs str.format / ui.escape_braces",
+                                          "case %r\n impl  format %s escape %s\n model format %s escape %s" % (case, r, esc, mr, mesc))
+        chk.count("format_outside_model_(conversion/spec/attribute fields)", sum(1 for m in fres[:len(fexprs)] if m[0][0] == 2))
+        for (case, o), m in zip(xobs, fres[len(fexprs):]):
+            if m != o:
+                nf += 1
+                chk.obligation_broken("correspondence", "Gen.GenMain.exit_status vs main_func", "case %r impl %s model %s" % (case, o, m))
+        chk.count("format_and_exit_disagreements", nf)
+    except core.BuildError as exc:
+        chk.obligation_broken("correspondence", "model evaluation (Model.Format, Gen.GenMain)", exc)
     try:
         res = core.coq_eval(IMPORTS, [e[4] for e in exprs], chk.scratch, chunk=40, jobs=16)
     except core.BuildError as exc:
